@@ -70,6 +70,7 @@ def pipeline(tid, spec, gd, rng, events):
         except Exception as ex:
             events.append(dict(tid=tid, ev="Write", art=art, digest=-1, err=type(ex).__name__))
             return
+    ev("NewProcess")          # the rate matrix is built by another job (rule run_sqra): it knows only what it reads
     rd = GridReader()
     loaders = dict(array=rd.load_full_grid, volumes=rd.load_volumes, adjacency=rd.load_adjacency_array,
                    borders=rd.load_borders_array, distances=rd.load_distances_array)
